@@ -6,7 +6,7 @@ from functools import cached_property
 
 from pyab_static import pipeline as PL
 from pyab_static.core import PKG, AnalysisError, Report
-from pyab_static.gramspec import SLY_YACC_ANCHORS
+from pyab_static.gramspec import SLY_YACC_ANCHORS, SLY_YACC_ERROR_ANCHORS
 from pyab_static.lexspec import SLY_LEX_ANCHORS, check_sly_anchors, extract_lexers
 from pyab_static.rx import Lexicon
 from pyab_static.srcmodel import Source, dotted, norm
@@ -60,6 +60,10 @@ class Ctx:
         for pr in p.grammar.prods[1:]:
             self.rep.unit(f"production {pr}")
         return p
+
+    def check_error_anchors(self):
+        n = check_sly_anchors(self.src, SLY_YACC_ERROR_ANCHORS, "sly/yacc.py")
+        self.rep.note(f"{n} statements of sly/yacc.py the error-handling model depends on are still present")
 
     @cached_property
     def grammar(self):
